@@ -476,8 +476,20 @@ func (r *regulation) ruleFreshness(rule string) {
 
 func (r *regulation) ruleSinks(rule string) {
 	c := r.c
+	var analyse func(fn *ssa.Function, param *ssa.Parameter, depth int) (string, string)
 	check := func(fn *ssa.Function, param *ssa.Parameter, what string) {
 		key := c.FK(fn)
+		arith, sink := analyse(fn, param, 0)
+		switch {
+		case arith != "":
+			c.R.Bad(rule, key, key, arith, what+": the value to write is modified arithmetically before it reaches the sink")
+		case sink == "":
+			c.R.Bad(rule, key, key, c.P.Pos(fn.Pos()), what+": the parameter does not reach a write sink (WriteIntToFile*/Itoa/Sprintf)")
+		default:
+			c.R.Ok(rule, key, key, c.P.Pos(fn.Pos()), what+": parameter passed unmodified to "+strings.TrimPrefix(sink, M+"/"))
+		}
+	}
+	analyse = func(fn *ssa.Function, param *ssa.Parameter, depth int) (string, string) {
 		// no arithmetic on the parameter
 		arith := ""
 		seen := map[ssa.Value]bool{}
@@ -538,14 +550,31 @@ func (r *regulation) ruleSinks(rule string) {
 				}
 			}
 		})
-		switch {
-		case arith != "":
-			c.R.Bad(rule, key, key, arith, what+": the value to write is modified arithmetically before it reaches the sink")
-		case sink == "":
-			c.R.Bad(rule, key, key, c.P.Pos(fn.Pos()), what+": the parameter does not reach a write sink (WriteIntToFile*/Itoa/Sprintf)")
-		default:
-			c.R.Ok(rule, key, key, c.P.Pos(fn.Pos()), what+": parameter passed unmodified to "+strings.TrimPrefix(sink, M+"/"))
+		// handed on to a helper of the repository: the helper's parameter takes over
+		if depth < 2 {
+			Calls(fn, func(cc ssa.CallInstruction) {
+				cal := ir.Callee(cc).Static
+				if cal == nil || !c.P.IsRepoFunc(cal) || len(cal.Blocks) == 0 || cc.Common().IsInvoke() {
+					return
+				}
+				p := load_FuncPkgPath(cal)
+				if p != PkgFans && p != PkgUtil {
+					return
+				}
+				for i, a := range cc.Common().Args {
+					if i < len(cal.Params) && r.tb.Of(a, nil).String() == pterm {
+						a2, s2 := analyse(cal, cal.Params[i], depth+1)
+						if a2 != "" && arith == "" {
+							arith = a2
+						}
+						if s2 != "" && sink == "" {
+							sink = s2
+						}
+					}
+				}
+			})
 		}
+		return arith, sink
 	}
 	for _, fn := range c.ImplMethods(PkgFans, "Fan", "SetPwm") {
 		if len(fn.Params) >= 2 {
